@@ -346,6 +346,9 @@ sqf::runtime::runtime::result sqf::runtime::runtime::execute(sqf::runtime::runti
             if (m_state == state::empty)
             { // A new run begins (not the continuation of a halted one): the runtime budget is measured from here
                 m_run_start_timestamp = std::chrono::system_clock::now();
+                // ... and no error state of an earlier run (e.g. the fatal 'maximum runtime reached' message) may leak into it
+                m_runtime_error = false;
+                log_messages.clear();
             }
             m_state = state::running;
             while (!m_contexts.empty())
